@@ -183,6 +183,10 @@ class Construction:
   @staticmethod
   def _subclass(data, version = None):
     record_type = data[0]
+    if record_type == "\n":
+      # reserved for the placeholders of lines of unknown type
+      raise gfapy.FormatError(
+          "Invalid record type: {}".format(repr(record_type)))
     if record_type and record_type[0] == "#":
       return gfapy.line.Comment
     elif version == "gfa1":
